@@ -131,6 +131,9 @@ def report(prop, tier, seed, results, meta, t0, write=True, verbose=False):
             continue
         if r.get("status") == "unsupported":
             unsupported.append({"contract": r.get("contract"), "reason": r.get("error")})
+            for ob in r.get("obligations", []):
+                if ob.get("status") == "refuted":
+                    refuted.append(ob)
             continue
         functions.update(r.get("functions", {}))
         assumed.update(r.get("assumed", []))
